@@ -1,5 +1,5 @@
 SPECIFICATION TSpec
-INVARIANTS LayoutOK Clauses Exact
+INVARIANTS LayoutOK Clauses Exact Created
 PROPERTY Monotone
 POSTCONDITION Accepted
 CHECK_DEADLOCK FALSE
